@@ -476,6 +476,9 @@ type OConn struct {
 	FirstByteStep int
 	// StartSteps[i] is the step at which the first byte of the i-th request arrived.
 	StartSteps []int
+	// EarlyFor is the request that was answered as soon as its head had arrived (Origin.Early).
+	EarlyFor     *wire.Msg
+	earlyStalled bool
 }
 
 // Origin is a controller-driven raw origin server.
@@ -485,6 +488,11 @@ type Origin struct {
 	Conns []*OConn
 	// Plan decides the reply to the j-th request on a connection.
 	Plan func(oc *OConn, req *wire.Msg) *Reply
+	// Early, when set, is asked once the head of a request has arrived and its body has not:
+	// a non-nil reply is sent at once; the origin stops reading and resumes at some later step.
+	Early func(oc *OConn, head *wire.Msg) *Reply
+	// AcceptCap, when positive, is the socket-buffer capacity of connections accepted from now on.
+	AcceptCap int
 	// HoldReplies, when set, disables the reply action (C07 park point).
 	HoldReplies bool
 }
@@ -495,6 +503,9 @@ func NewOrigin(k *kernel.K, n *simnet.Net, addr string, plan func(oc *OConn, req
 	n.Handle(addr, func(c *simnet.Conn) {
 		oc := &OConn{O: o, Idx: len(o.Conns), C: c, P: wire.NewReqParser(), FirstByteStep: -1}
 		o.Conns = append(o.Conns, oc)
+		if o.AcceptCap > 0 {
+			c.SetCap(o.AcceptCap)
+		}
 		c.OnData(func(b []byte) {
 			if oc.FirstByteStep < 0 {
 				oc.FirstByteStep = k.StepN
@@ -503,6 +514,16 @@ func NewOrigin(k *kernel.K, n *simnet.Net, addr string, plan func(oc *OConn, req
 				oc.StartSteps = append(oc.StartSteps, k.StepN)
 			}
 			oc.P.Feed(b)
+			if o.Early != nil && !oc.Closed && oc.EarlyFor == nil && oc.P.Cur != nil && oc.Replied == len(oc.P.Msgs) {
+				if rp := o.Early(oc, oc.P.Cur); rp != nil {
+					oc.EarlyFor = oc.P.Cur
+					oc.earlyStalled = true
+					oc.Replies = append(oc.Replies, rp)
+					c.SetCap(2048)
+					c.Peer().Stall(true)
+					c.Inject(rp.Raw)
+				}
+			}
 		}, func() { oc.SawEOF = true; oc.P.End() }, func() { oc.SawRST = true })
 	})
 	k.AddSource(o.actions)
@@ -515,11 +536,28 @@ func (o *Origin) actions(add func(kernel.Action)) {
 	}
 	for _, oc := range o.Conns {
 		oc := oc
+		if oc.Replied < len(oc.P.Msgs) && oc.P.Msgs[oc.Replied] == oc.EarlyFor {
+			oc.Replied++ // answered already
+		}
 		if oc.Closed || oc.SawRST || oc.Replied >= len(oc.P.Msgs) {
 			continue
 		}
 		add(kernel.Action{Key: fmt.Sprintf("origin %s c%d reply#%d", o.Addr, oc.Idx, oc.Replied), W: 3, Class: kernel.Actor, Do: func() { oc.ReplyNext() }})
 	}
+}
+
+// ResumeEarly lets every connection that stopped reading after an early answer read on; it reports
+// whether there was one.
+func (o *Origin) ResumeEarly() bool {
+	any := false
+	for _, oc := range o.Conns {
+		if oc.earlyStalled {
+			oc.earlyStalled = false
+			oc.C.Peer().Stall(false)
+			any = true
+		}
+	}
+	return any
 }
 
 // ReplyNext answers the next unanswered request on the connection.
